@@ -66,6 +66,9 @@ Lemma apply_ops_app bufsz l1 l2 s :
   apply_ops bufsz (l1 ++ l2) s = apply_ops bufsz l2 (apply_ops bufsz l1 s).
 Proof. unfold apply_ops; apply fold_left_app. Qed.
 
+Lemma apply_ops_nil bufsz s : apply_ops bufsz [] s = s.
+Proof. reflexivity. Qed.
+
 Lemma apply_ops_cons bufsz o l s :
   apply_ops bufsz (o :: l) s = apply_ops bufsz l (exec_ok bufsz o s).
 Proof. reflexivity. Qed.
@@ -460,7 +463,11 @@ Proof.
   rewrite Z.eqb_refl, IH; reflexivity.
 Qed.
 
-Ltac fa := repeat first [ apply Forall_nil | apply Forall_cons | (apply Forall_app; split) ].
+Ltac fa := repeat match goal with
+  | |- Forall _ [] => apply Forall_nil
+  | |- Forall _ (_ :: _) => apply Forall_cons
+  | |- Forall _ (_ ++ _) => apply Forall_app; split
+  end.
 Ltac leaf := unfold nt, nowrite; simpl; try discriminate; try congruence; auto.
 
 Lemma loop_nt q src dst cs : q <> dst -> Forall (nt q) (loop_ops src dst cs).
@@ -566,16 +573,14 @@ Proof.
   - apply copy_nt; discriminate.
   - fa; try (apply ronly_Forall_nt; assumption); leaf.
   - fa; try (apply ronly_Forall_nt; assumption); leaf.
-  - fa; try (apply ronly_Forall_nt; assumption);
-      try (apply Forall_flat_map, Forall_forall; intros [| |[]] _; simpl; fa); leaf.
+  - fa; try (apply ronly_Forall_nt; assumption); try apply (pass2_nt rho th Fin); leaf.
   - leaf.
   - leaf.
   - fa; try (apply loop_nt; discriminate); leaf.
   - intros s; apply copy_result.
   - apply copy_nowrite.
   - fa; try (apply ronly_Forall_nowrite; assumption); leaf.
-  - fa; try (apply ronly_Forall_nowrite; assumption);
-      try (apply Forall_flat_map, Forall_forall; intros [| |[]] _; simpl; fa); leaf.
+  - fa; try (apply ronly_Forall_nowrite; assumption); try apply pass2_nowrite; leaf.
   - fa; try apply loop_nowrite; leaf.
   - rewrite !flushed_of_app, flushed_of_init, flushed_of_flush.
     rewrite (flushed_of_nowrite (map i_op (store_meta_tr _ _ _))) by apply store_nowrite.
@@ -651,7 +656,8 @@ Proof.
   intros [H | [E | [[n E] | E]]] [Hc Hp]; try subst o.
   - destruct (exec_ok_frame bufsz o s j H) as [E1 E2]. unfold no70, content; rewrite E1, E2. auto.
   - split; simpl; unfold content; simpl; rewrite !upd_eq; [tauto|]. intros pd E; injection E as <-; tauto.
-  - simpl. unfold buffered. destruct (pend s j) as [pd|] eqn:E; [|split; auto].
+  - simpl. unfold buffered. destruct (pend s j) as [pd|] eqn:E;
+      [|split; [exact Hc | intros pd0 E0; first [rewrite E in E0; discriminate | eapply Hp; eauto]]].
     assert (Ht : ~ In 70 (pd ++ meta_text false n)).
     { intros H; apply in_app_or in H as [H|H]; [eapply Hp; eauto | eapply meta_false_no70; eauto]. }
     destruct (_ <? _)%nat; split; simpl; unfold content; simpl; rewrite ?upd_eq.
@@ -661,7 +667,8 @@ Proof.
       rewrite <- (firstn_skipn bufsz (pd ++ _)). apply in_or_app; auto.
     + exact Hc.
     + intros pd' E'; injection E' as <-. exact Ht.
-  - simpl. destruct (pend s j) as [pd|] eqn:E; [|split; auto].
+  - simpl. destruct (pend s j) as [pd|] eqn:E;
+      [|split; [exact Hc | intros pd0 E0; first [rewrite E in E0; discriminate | eapply Hp; eauto]]].
     split; simpl; unfold content; simpl; rewrite ?upd_eq.
     + intros H; apply in_app_or in H as [H|H]; [apply Hc; auto | eapply Hp; eauto].
     + discriminate.
@@ -688,7 +695,7 @@ Proof.
   assert (Hshape : map i_op (thread_tr New Direct rho th) =
                    map i_op (thread_init_tr Direct th ++ flush_tr Direct th)
                    ++ [FopenW j; Fputs j (meta_text true (th_meta1 th)); Fclose j; Close o]).
-  { unfold thread_tr, thread_free_tr. rewrite !map_app. simpl. rewrite <- !app_assoc. reflexivity. }
+  { unfold thread_tr, thread_free_tr. rewrite !map_app. simpl. rewrite <- ?app_assoc. reflexivity. }
   rewrite Hshape in He. clear Hshape.
   assert (SG : Forall (safe70 j) (map i_op (thread_init_tr Direct th ++ flush_tr Direct th))).
   { rewrite map_app; apply Forall_app; split.
@@ -710,10 +717,11 @@ Proof.
   { exfalso. simpl in Hfin. unfold content in Hfin; simpl in Hfin; rewrite upd_eq in Hfin. discriminate. }
   assert (HB : bufinv (exec_ok bufsz (Fputs j (meta_text true (th_meta1 th))) (exec_ok bufsz (FopenW j) sG)) j
                       (meta_text true (th_meta1 th))).
-  { change (meta_text true (th_meta1 th)) with ([] ++ meta_text true (th_meta1 th)) at 2.
-    simpl exec_ok at 1. apply bufinv_buffered, bufinv_fopen. }
+  { change (exec_ok bufsz (Fputs j (meta_text true (th_meta1 th))) (exec_ok bufsz (FopenW j) sG))
+      with (buffered bufsz (exec_ok bufsz (FopenW j) sG) j (meta_text true (th_meta1 th))).
+    apply (bufinv_buffered bufsz _ j [] (meta_text true (th_meta1 th))). apply bufinv_fopen. }
   apply prefix_cons_cases in He as [->|(e5 & -> & He)].
-  { exfalso. rewrite !apply_ops_cons in Hfin. simpl apply_ops in Hfin.
+  { exfalso. rewrite !apply_ops_cons, apply_ops_nil in Hfin.
     rewrite (bufinv_not_json _ _ _ [] true (th_meta1 th) HB) in Hfin; [discriminate | rewrite app_nil_r; auto]. }
   clear Hfin. split.
   - rewrite !apply_ops_cons.
@@ -725,5 +733,143 @@ Proof.
     apply (init_flush_obs bufsz Direct th s0); auto.
   - rewrite flushed_of_app. unfold G. rewrite map_app, flushed_of_app, flushed_of_init, flushed_of_flush.
     cbn [flushed_of]. rewrite (flushed_of_nowrite e5); [rewrite app_nil_r; reflexivity|].
-    eapply Forall_prefix; eauto. fa; leaf.
+    eapply Forall_prefix; eauto; fa; leaf.
+Qed.
+
+(* ------------------------------------------------------------------ threads do not touch each other's files *)
+
+Definition other (t : Z) (o : op) : Prop := forall l f, touch o <> Some (PFile l t f).
+
+Ltac oleaf := let l := fresh "l" in let f := fresh "f" in let E := fresh "E" in
+  intros l f E; simpl in E; try discriminate; injection E; intros; subst; congruence.
+
+Lemma loop_other t src dst cs : (forall l f, dst <> PFile l t f) -> Forall (other t) (loop_ops src dst cs).
+Proof.
+  intros H; unfold loop_ops; apply Forall_flat_map, Forall_forall; intros c _.
+  fa; intros l f E; simpl in E; try discriminate. injection E as E. eapply H; eauto.
+Qed.
+
+Lemma copy_other t t' f data : t' <> t -> Forall (other t) (copy_ops t' f data).
+Proof.
+  intros H; unfold copy_ops; fa; try (apply loop_other; intros l0 f0 E; injection E; intros; subst; congruence);
+    oleaf.
+Qed.
+
+Lemma pass_other t rho th p : th_tid th <> t -> Forall (other t) (pass_ops rho th p).
+Proof.
+  intros H; unfold pass_ops; fa; try oleaf.
+  apply Forall_flat_map, Forall_forall; intros e _.
+  destruct e as [| |[]]; destruct p as [|[|[|p]]]; cbn [pbody_ops]; fa;
+    first [ apply copy_other; assumption | oleaf ].
+Qed.
+
+Lemma thread_other t m rho th : th_tid th <> t -> Forall (other t) (map i_op (thread_tr New m rho th)).
+Proof.
+  intros H. unfold thread_tr, thread_free_tr, relocate, relocate_new. rewrite !map_app.
+  fa.
+  - unfold thread_init_tr, mkpath_thread, store_meta_tr; destruct m; simpl; fa; oleaf.
+  - unfold flush_tr; rewrite map_map; apply Forall_map, Forall_forall; intros c _; simpl; oleaf.
+  - unfold store_meta_tr; simpl; fa; oleaf.
+  - simpl; fa; oleaf.
+  - destruct m; [constructor|]. cbv beta iota.
+    rewrite !map_app, !map_pass_new. fa; try (apply pass_other; auto). simpl; fa; oleaf.
+Qed.
+
+Lemma threads_other t m rho P : (forall th, In th P -> th_tid th <> t) ->
+  Forall (other t) (map i_op (flat_map (thread_tr New m rho) P)).
+Proof.
+  intros H. rewrite map_flat_map. apply Forall_flat_map, Forall_forall; intros th Hin.
+  apply thread_other; auto.
+Qed.
+
+Lemma init_other t m : Forall (other t) (map i_op (proc_init_tr m)).
+Proof. destruct m; simpl; fa; oleaf. Qed.
+Lemma fini_other t m P : Forall (other t) (map i_op (proc_fini_tr m P)).
+Proof. destruct m; simpl; fa; oleaf. Qed.
+
+Lemma other_nt t l f o : other t o -> nt (PFile l t f) o.
+Proof. intros H; apply H. Qed.
+Lemma other_Forall_nt t l f ops : Forall (other t) ops -> Forall (nt (PFile l t f)) ops.
+Proof. apply Forall_impl; intros; apply other_nt; auto. Qed.
+
+Lemma flushed_of_other' l t : Forall (other t) l -> flushed_of l t = [].
+Proof. intros H; apply flushed_of_other. exact H. Qed.
+
+(* ------------------------------------------------------------------ C09 for programs *)
+
+Lemma thread_s2 bufsz m rho th : wf_order rho -> forall s0 e,
+  (forall l f, files s0 (PFile l (th_tid th) f) = None /\ pend s0 (PFile l (th_tid th) f) = None) ->
+  prefix e (map i_op (thread_tr New m rho th)) ->
+  json_finished (content (apply_ops bufsz e s0) (PFile Fin (th_tid th) Json)) = true ->
+  files (apply_ops bufsz e s0) (PFile Fin (th_tid th) Obs) = Some (all_bytes th)
+  /\ flushed_of e (th_tid th) = all_bytes th.
+Proof.
+  intros W s0 e Hclean He Hfin. destruct m.
+  - eapply direct_thread_s2; eauto; apply Hclean.
+  - eapply tmp_thread_s2; eauto. unfold content; destruct (Hclean Fin Json) as [-> _]; reflexivity.
+Qed.
+
+Lemma is_prefix_refl l : is_prefix l l = true.
+Proof. induction l; simpl; auto. rewrite Z.eqb_refl; auto. Qed.
+
+Lemma split_tids (P1 P2 : program) th :
+  NoDup (tids (P1 ++ th :: P2)) -> forall th', In th' (P1 ++ P2) -> th_tid th' <> th_tid th.
+Proof.
+  unfold tids; rewrite map_app; simpl; intros H th' Hin E.
+  apply NoDup_remove_2 in H; apply H. rewrite <- map_app, <- E. apply in_map; auto.
+Qed.
+
+Theorem C09_s2_all bufsz m P rho : wf_program P -> wf_order rho -> C09_sentence2 bufsz m P rho.
+Proof.
+  intros [Hnd _] W k th. cbv zeta. intros Hin Hfin.
+  apply in_split in Hin as (P1 & P2 & ->).
+  pose proof (split_tids P1 P2 th Hnd) as Hoth.
+  set (t := th_tid th) in *.
+  unfold flushed, apply_prefix in *.
+  set (A := map i_op (proc_init_tr m) ++ map i_op (flat_map (thread_tr New m rho) P1)).
+  set (T := map i_op (thread_tr New m rho th)).
+  set (B := map i_op (flat_map (thread_tr New m rho) P2) ++ map i_op (proc_fini_tr m (P1 ++ th :: P2))).
+  assert (Etr : trace_of_program m (P1 ++ th :: P2) rho = A ++ T ++ B).
+  { unfold trace_of_program, trace_of_program_v, itrace. rewrite flat_map_app. cbn [flat_map].
+    rewrite !map_app. unfold A, T, B. rewrite <- !app_assoc. reflexivity. }
+  rewrite Etr in *. clear Etr.
+  assert (OA : Forall (other t) A).
+  { unfold A; apply Forall_app; split; [apply init_other | apply threads_other].
+    intros th' H; apply Hoth; apply in_or_app; auto. }
+  assert (OB : Forall (other t) B).
+  { unfold B; apply Forall_app; split; [apply threads_other | apply fini_other].
+    intros th' H; apply Hoth; apply in_or_app; auto. }
+  set (e := firstn k (A ++ T ++ B)) in *.
+  assert (He : prefix e (A ++ T ++ B)) by apply firstn_prefix.
+  clearbody e.
+  assert (Hclean : forall l f, files (apply_ops bufsz A fs0) (PFile l t f) = None
+                               /\ pend (apply_ops bufsz A fs0) (PFile l t f) = None).
+  { intros l f. destruct (apply_ops_frame bufsz A fs0 (PFile l t f)) as [-> ->]; [|split; reflexivity].
+    apply other_Forall_nt; auto. }
+  apply prefix_app_cases in He as [He|(e2 & -> & He)].
+  { exfalso. rewrite content_frame in Hfin; [discriminate|].
+    apply other_Forall_nt. eapply Forall_prefix; eauto. }
+  rewrite apply_ops_app in *.
+  apply prefix_app_cases in He as [He|(e3 & -> & He)].
+  - destruct (thread_s2 bufsz m rho th W _ e2 Hclean He Hfin) as [H1 H2]. split; auto.
+    rewrite flushed_of_app, (flushed_of_other' A) by auto. exact H2.
+  - rewrite apply_ops_app in *.
+    assert (OE : Forall (other t) e3) by (eapply Forall_prefix; eauto).
+    rewrite content_frame in Hfin by (apply other_Forall_nt; auto).
+    destruct (thread_s2 bufsz m rho th W _ T Hclean (ex_intro _ [] (eq_sym (app_nil_r T))) Hfin) as [H1 H2].
+    split.
+    + destruct (apply_ops_frame bufsz e3 (apply_ops bufsz T (apply_ops bufsz A fs0)) (PFile Fin t Obs)) as [-> _]; auto.
+      apply other_Forall_nt; auto.
+    + rewrite !flushed_of_app, (flushed_of_other' A), (flushed_of_other' e3) by auto.
+      rewrite app_nil_r. exact H2.
+Qed.
+
+Theorem C09_s1_all bufsz m P rho : wf_program P -> wf_order rho -> C09_sentence1 bufsz m P rho.
+Proof.
+  intros WP W k t. cbv zeta. intros Hemu Hin Hvis.
+  unfold emu_ok in Hemu. rewrite forallb_forall in Hemu. specialize (Hemu t Hin).
+  rewrite Hvis in Hemu. simpl in Hemu. unfold stream_ok in Hemu. apply andb_true_iff in Hemu as [Hj _].
+  unfold tids in Hin. apply in_map_iff in Hin as (th & <- & Hth).
+  destruct (C09_s2_all bufsz m P rho WP W k th Hth Hj) as [H1 H2].
+  unfold content. rewrite H1, H2. apply is_prefix_refl.
 Qed.
